@@ -358,7 +358,7 @@ def corr_pieces(model, r, n) -> dict:
 CMD_WORDS = [
     ["git", "status"], ["git", "push"], ["git", "push", "--force"], ["rm", "-rf", "x"], ["rm"], ["rmdir", "x"], ["ls"], ["foo", "a", "b"], ["./run.sh"], ["./run.sh", "x"],
     ["~/bin/tool", "x"], ["/tmp/x"], ["npm", "run", "build"], ["python", "src/a.py"], ["g", "status"], ["abc"], ["az"], ["bz", "q"], ["X=1", "rm", "x"], ["git", "statusx"], ["git"], ["foobar"],
-    ["node", "bin/x"], ["cat", "../f"], ["git", "push", "*"], ["a b", "c"],
+    ["node", "bin/x"], ["cat", "../f"], ["git", "push", "*"], ["a b", "c"], ["7z", "x", "a.7z"], ["2to3", "-l"], ["7za"], ["30", "x"],
 ]
 
 
